@@ -3,6 +3,7 @@ import GoCo.Driver.Sexp
 import GoCo.Compile.Compile
 import GoCo.Compile.VM
 import GoCo.Compile.Guard
+import GoCo.Compile.Scope
 set_option autoImplicit false
 
 namespace GoCo.MG
@@ -159,12 +160,29 @@ mutual
     | _ => none
 end
 
+/-- K9: every numbered atom with the names visible at it (`A5:1,2`); literal yields carry no number -/
+def atomTok : Atom → Option String
+  | .s (.act n) => some s!"A{n}"
+  | .s (.pact n) => some s!"P{n}"
+  | .s (.bpanic n) => some s!"PV{n}"
+  | .s (.def_ n) => some s!"V{n}"
+  | .y ⟨false, n⟩ => some s!"V{n}"
+  | .c x => some s!"C{x.n}"
+  | _ => none
+
+def scopeReport (ss : Stmts) : String :=
+  " ".intercalate ((obsL [] ss).filterMap fun o =>
+    (atomTok o.1).map fun t => t ++ ":" ++ ",".intercalate (o.2.map toString))
+
 def compileRequest : Sexp → Option String
   | .list [.atom "k4", body] => do
       let ss ← parseStmts body
       match compile currentQuirks ss with
       | .ok out => some s!"ok {stmtsSexp out}\tsupported={Supported ss} buildable={Buildable out}"
       | .error e => some s!"err {e}\tsupported={Supported ss} buildable=false"
+  | .list [.atom "k9", body] => do
+      let ss ← parseStmts body
+      some s!"ok {scopeReport ss}\tscopeOK={scopeOKL ss}"
   | .list [.atom "k5", body] => do
       let ss ← parseStmts body
       some s!"ok {stmtsSexp (optimize ss)}"
